@@ -1180,7 +1180,7 @@ pub fn monitor(run: &Run) -> (Vec<Finding>, Stats) {
         {
             let spec = Spec::parse(&run.spec);
             let pure = match spec.get_or("script", "") { "smooth" => Some(false), "plateau" => Some(true), _ => None };
-            if let (Some(quant), Some(fv), true) = (pure, run.final_vec.as_ref(), s.kt_start == 0. && s.kt_start.is_sign_positive()) {
+            if let (Some(quant), Some(fv), true) = (pure, run.final_vec.as_ref(), s.kt_start == 0.) {
                 let sseed = spec.u_or("sseed", 1);
                 let val = |v: &[f64]| smooth_value(sseed, v).map(|x| if quant { (x * 40.).floor() / 40. } else { x });
                 let n = run.init.len().min(fv.len());
